@@ -117,6 +117,38 @@ def module_dicts():
     return found
 
 
+_SCALAR_OWNERS = None
+
+
+def global_scalars():
+    """Every scalar (number, bool, str) class or module attribute of shapepy.* - tolerances,
+    flags, counters - found by reflection: configuration that no call may leave changed."""
+    global _SCALAR_OWNERS
+    if _SCALAR_OWNERS is None:
+        owners = []
+        mods = [shapepy]
+        for info in pkgutil.walk_packages(shapepy.__path__, "shapepy."):
+            try:
+                mods.append(importlib.import_module(info.name))
+            except Exception:
+                pass
+        for mod in mods:
+            owners.append((mod.__name__, mod))
+            for name, v in sorted(vars(mod).items()):
+                if isinstance(v, type) and getattr(v, "__module__", "").startswith("shapepy"):
+                    owners.append((f"{mod.__name__}.{v.__name__}", v))
+        _SCALAR_OWNERS = owners
+    scal = (int, float, bool, str, Fraction)
+    out = {}
+    for oname, owner in _SCALAR_OWNERS:
+        for an, av in vars(owner).items():
+            if an.startswith("__") and an.endswith("__"):
+                continue
+            if isinstance(av, scal):
+                out[f"{oname}.{an}"] = repr(av)
+    return out
+
+
 def cache_drop():
     """The cache-drop fault: empty every memo table.  Returns how many entries were dropped."""
     dropped = 0
@@ -329,5 +361,9 @@ def badarg_catalogue():
     cat.append(("move", lambda: (iter((1,)),), {}))
     cat.append(("move", lambda: (iter(("a", 2)),), {}))
     cat.append(("scale", lambda: (2, iter((3,))), {}))
+    # legal but extreme factors: either every curve is scaled or none
+    cat.append(("scale", (1e-5, 1e-5), {}))
+    cat.append(("scale", (Fraction(1, 10**5), 1), {}))
+    cat.append(("scale", (1e5, 1e-5), {}))
     cat.append(("rotate", lambda: (iter((1,)),), {}))
     return cat
